@@ -72,7 +72,7 @@ var denyPkgs = []string{
 	"github.com/syndtr/goleveldb", "net", "os", "crypto/", "golang.org/x/crypto",
 	"github.com/btcsuite", "regexp", "fmt", "log", "runtime", "syscall", "github.com/tendermint/tendermint/rpc",
 	"github.com/tendermint/tendermint/node", "github.com/gogo/protobuf", "github.com/golang/protobuf",
-	"gopkg.in/yaml", "text/", "math/big", "bufio", "io/ioutil", "github.com/tendermint/tendermint/p2p", "math/rand", "github.com/tendermint/tendermint/libs/common",
+	"gopkg.in/yaml", "text/", "math/big", "bufio", "io/ioutil", "github.com/tendermint/tendermint/p2p", "math/rand",
 }
 
 func (p *Program) denyFunc(fn *ssa.Function) bool {
@@ -136,7 +136,10 @@ func (i *interpreter) checkGlobal(g *ssa.Global) {
 	unsup("read of global %s.%s of a package whose initialiser is not run", g.Pkg.Pkg.Path(), g.Name())
 }
 
-var globalAllow = map[string]bool{}
+var globalAllow = map[string]bool{
+	"github.com/tendermint/tendermint/types.TM2PB": true, // tm2pb{} : empty struct value
+	"github.com/tendermint/tendermint/types.PB2TM": true,
+}
 
 // newInterp builds a fresh interpreter (fresh globals) and runs the allowed package initialisers.
 func (p *Program) newInterp(m *Machine) *interpreter {
